@@ -243,8 +243,18 @@ def run_cell(cell):
         if bad:
             res['check'] = bad
     # ---- a later ordinary call in the same process
+    # under a watchdog: a later call that BLOCKS (e.g. on a lock the failed call left held) must not look like a slow cell
+    import signal
+
+    def _hang(signum, frame):
+        raise TimeoutError('the later ordinary call did not return within 30 s (blocked)')
     try:
-        lc = later_call()
+        signal.signal(signal.SIGALRM, _hang)
+        signal.alarm(30)
+        try:
+            lc = later_call()
+        finally:
+            signal.alarm(0)
     except BaseException as e:  # noqa
         lc = 'later call raised %s: %s' % (type(e).__name__, str(e)[:100])
     if lc:
